@@ -877,13 +877,15 @@ theorem quiet_psV5Connect (c : C) (p : Pkt) (h : NotPub p) : Quiet c (psV5Connec
 theorem quiet_connackTail (c0 c : C) (p : Pkt) (h0 : Quiet c0 c) :
     Quiet c0 (if p.rc ≠ some 0 then
       (cancelTimers { c with s := { c.s with status := .disconnected } }).push .close
-    else sendPostProcess (sendStored { c with s := { c.s with status := .connected } })) := by
+    else sendPostProcess (if p.sp then sendStored { c with s := { c.s with status := .connected } }
+      else clearStoreRelated { c with s := { c.s with status := .connected } })) := by
   let ca : C := { c with s := { c.s with status := .disconnected } }
   have ha : Quiet c0 ca := Quiet.upd _ h0 (Or.inl rfl) rfl
   let cb : C := { c with s := { c.s with status := .connected } }
   have hb : Quiet c0 cb := Quiet.upd _ h0 (Or.inl rfl) rfl
   exact Quiet.ite (Quiet.trans (Quiet.trans ha (quiet_cancelTimers ca)) (quiet_push_other _ _ rfl))
-    (Quiet.trans (Quiet.trans hb (quiet_sendStored cb)) (quiet_sendPostProcess _))
+    (Quiet.trans (Quiet.ite (Quiet.trans hb (quiet_sendStored cb)) (Quiet.trans hb (quiet_clearStoreRelated cb)))
+      (quiet_sendPostProcess _))
 
 theorem quiet_psV3Connack (c : C) (p : Pkt) (h : NotPub p) : Quiet c (psV3Connack c p) := by
   unfold psV3Connack
